@@ -116,6 +116,25 @@ def run(case):
     return {'nontrivial': bool(model), 'labels': sorted(set(labels))}
 
 
+def run_long_jumps(case):
+    """very long trajectories through the whole pipeline: default-settings jumps vs the model (time columns beyond 2^15 frames)"""
+    info = c03.run_long(case)
+    tr, states = info['tr'], info['states']
+    model = oracle.jumps_model(states)
+    rows = jump_rows(tr, 0)
+    inner_equal = bool(np.array_equal(np.asarray(tr.states), np.asarray(tr.inner_states)))
+    default_keys = {r[:4] for r in model}
+    for r in rows or []:
+        a, o, d, s_, e = r
+        if r[:4] not in default_keys:
+            raise Violation('not-a-default-jump', f'{len(states)} frames: reported {r} is not among the default jumps {sorted(default_keys)[:5]}')
+        if not (0 <= s_ < e < len(states)) or states[s_, a] != o or states[e, a] != d:
+            raise Violation('inconsistent-with-states', f'{len(states)} frames: jump {r}')
+    if inner_equal and set(rows or []) != model:
+        raise Violation('default-missing-jump', f'{len(states)} frames')
+    return {'nontrivial': bool(model), 'labels': info['labels']}
+
+
 # ----------------------------------------------------------------------------- enumerations
 class EnumOuter:
     """All one-atom outer histories over <=3 sites (4 symbols), inner == outer (default settings)."""
@@ -174,4 +193,7 @@ SUBS = [
     Sub(name='fuzz-jumps', kind='fuzz', run=run, target='jumps',
         rule='thorough tier only: atheris (libFuzzer) coverage-guided campaign on the Python-level classifier with the property oracle inside the target; bytes are decoded into a structured case; empty and seeded corpus shards; non-trivial counted but not de-duplicated',
         n={'quick': 0, 'thorough': 60000}, shards={'quick': 1, 'thorough': 16}),
+    Sub(name='long-pipeline', kind='hyp', run=run_long_jumps, strategy=c03.long_cases,
+        rule='trajectories of 33 000 - 70 000 (140 000) frames through transitions_between_sites and Jumps: every reported jump is a default jump of the planned history and consistent with the states',
+        n={'quick': 2, 'thorough': 12}, shards={'quick': 6, 'thorough': 16}),
 ]
